@@ -38,12 +38,21 @@ CLAIMED = {
     "C10": dict(text="real monotonic/sqrt/linear poloidal spacing constructors evaluated through numpy.piecewise on symbolic reals and jets; z3 decides s(0)=0, s(N)=L, end gradients in normalised index, straight-line extrapolations, positivity of ds/di (convex case), resolution nesting; _checkMonotonic and get_distance guard contracts",
                 note="N = w^2 N_norm parametrisation; brentq -> root contract; log/exp uninterpreted; interior monotonicity of sqrt family and concave case not decided; reals not doubles",
                 tech=TECH + "; QF_NRA/UF with forward-mode AD (jets)"),
+    "C11": dict(text="index bookkeeping that puts the wall point at the contour's start/end index (real PsiContour.insert with symbolic indices incl. negative endInd; real addPointAtWallToContours for all intersection indices and proximity branches), penalty_mask on the real calcPenaltyMask/find_intersections for a rectangular wall (thorough tier), anticlockwise stored wall for every symbolic polygon",
+                note="_find_intersection stubbed by admissible index/point values; calc_distance arbitrary; wall-crossing predicate is C20; that the refined wall point stays on the wall and that cells between targets are inside the wall are not decided",
+                tech=TECH + "; LIA over symbolic indices, explorer choice points for index combinations"),
+    "C12": dict(text="GUARD CONTRACTS ONLY: for each fail-loud guard (make1dGrid, _checkMonotonic, get_distance, calcHy, Jacobian self-check, Bp-sign check, makeConnection, Mesh option consistency, DDX finiteness) 'returns => postcondition' / 'raises only if the precondition is violated' on the real code with symbolic data",
+                note="'shipped examples generate', presence/shape of output variables, 'no cell folded over', optionsfactory validation and the scripts' unused-option filter are whole-pipeline/I-O facts and are NOT claimed",
+                tech=TECH),
     "C13": dict(text="real ParallelMap on a model of multiprocessing; every interleaving of queue operations within the bound is explored by the path explorer, the failing task index and the arrival permutation are z3 integers",
                 note="queues are reliable FIFOs, processes run only when scheduled, dill = identity, tasks pure; 2-3 workers, 1-3 tasks, <= 1 failing task",
                 tech="path exploration of the real code on a scheduler model (schedules = explorer choice points) with symbolic failing index / arrival permutation decided by z3 (LIA); replay on the model and on real multiprocessing"),
     "C14": dict(text="ONE clause only: 'building an equilibrium does not modify the caller's input arrays' - the constructor's option-handling statements (AST slice) run on object arrays of symbols for all flag combinations; the caller's arrays are compared element-for-element with their original symbolic contents",
                 note="the remaining clauses of C14 (run-to-run identity, YAML/CLI reproducibility, hidden state) are I/O and whole-pipeline facts outside solver-based checking and are NOT claimed; the comparison is structural (term identity), no arithmetic reasoning is needed",
                 tech="symbolic execution of an AST slice of the real constructor on z3-term payloads; structural comparison of the caller's arrays"),
+    "C16": dict(text="mirror symmetry of the real topology descriptors and index code (LSN<->USN, LDN<->UDN, CDN) over symbolic sizes (LIA), and sign / 2pi-scaling equivariance of the real geometry2+calcMetric outputs under psi->-psi, fpol->-fpol, psi->psi/k according to each component's tensor character",
+                note="equality of the actual R,Z positions of mirrored grids and 'positions unchanged under field reversal' need the numerical pipeline and are not decided; inhomogeneous components (g33, g_22) excluded from the scaling claim",
+                tech=TECH + "; LIA + exact rational-function normal form"),
     "C17": dict(text="reader pattern and writer formats read from the source and decided as z3 regular-expression/string queries; real write/read executed on symbolic payloads for layout/order; header widths decided in LIA (model validated against the real code each run)",
                 note="C printf %E language model; injective token pair for f2s/float; bounded sizes for layout; 2-digit exponents",
                 tech=TECH + "; z3 sequences/regex, LIA"),
